@@ -60,6 +60,10 @@ def session(rng, nblocks, depth, overlap=False):
                 if "carrier_wave" in op or "load_ack" in op:
                     continue
                 ops.append(op)
+        if rng.random() < 0.08 and kinds[n] != "ble":
+            ops.append(f"{n} exit")
+            ops.append(f"{n} withraise")     # a block left by an exception: it propagates, the radio is powered down
+            continue
         if overlap and rng.random() < 0.5:
             if kinds[n] != "ble" or rng.random() < 0.5:
                 ops.append(f"{n} set listen T")     # leave CE high behind
@@ -292,7 +296,9 @@ class C09(PropCheck):
                             break
                     if what is None and (int(cur["cfg"]) & 2) == 0:
                         what = "entering the block did not power the radio up"
-                if t[-1] == "exit" and (r["ce"] != "0" or int(cur["cfg"]) & 2):
+                if t[-1] == "withraise" and o["res"] != "raised":
+                    what = f"an exception raised inside {obj}'s `with` block did not come out of it ({o['res']})"
+                if t[-1] in ("exit", "withraise") and what is None and (r["ce"] != "0" or int(cur["cfg"]) & 2):
                     what = f"leaving {obj}'s block: CE={r['ce']} CONFIG={cur['cfg']} (expected CE low, powered down)"
                 if what:
                     break
